@@ -444,6 +444,59 @@ theorem resolveConflict_frame (interval : Nat) (hard : Nat → Option Hdr) (s : 
           (d * interval) (batchLenFrom (hardPass interval hard s cp).1 (d * interval))
         exact this
 
+theorem pickList_ok (cp : List (Peer × List Hdr)) (pick : Nat) (l : List Hdr)
+    (h : pickList cp pick = .ok l) : ∃ pc ∈ cp, pc.2 = l := by
+  unfold pickList at h
+  cases hg : cp[pick % cp.length]? with
+  | none => rw [hg] at h; cases h
+  | some pc =>
+    rw [hg] at h
+    simp only [RCOut.ok.injEq] at h
+    exact ⟨pc, List.mem_of_getElem? hg, h⟩
+
+theorem rcFinish_ok (interval pick before : Nat) (cp2 : List (Peer × List Hdr)) (s2 : St)
+    (hs2 : List (Peer × Msg)) (l : List Hdr)
+    (h : (rcFinish interval pick before cp2 s2 hs2).2 = .ok l) : ∃ pc ∈ cp2, pc.2 = l := by
+  unfold rcFinish at h
+  simp only at h
+  split at h
+  · obtain ⟨pc, hpc, e⟩ := pickList_ok _ _ _ h
+    exact ⟨pc, (List.mem_filter.mp (List.mem_filter.mp hpc).1).1, e⟩
+  · cases h
+
+theorem rcConflict_ok (interval : Nat) (s1 : St) (net : Net) (cp2 : List (Peer × List Hdr)) (start n : Nat)
+    (l : List Hdr) (h : (rcConflict interval s1 net cp2 start n).2 = .ok l) : ∃ pc ∈ cp2, pc.2 = l := by
+  unfold rcConflict at h
+  simp only at h
+  by_cases hb : (!baselineGo 0 (gather s1 net n)) = true
+  · simp only [hb, ↓reduceIte] at h; cases h
+  · simp only [hb, Bool.false_eq_true, ↓reduceIte] at h
+    generalize idxLoop net start (List.range n) s1 (gather s1 net n) = r at h
+    obtain ⟨s2, e⟩ := r
+    cases e with
+    | error e => cases h
+    | ok hs2 => exact rcFinish_ok _ _ _ _ _ _ _ h
+
+/-- the list `resolveConflict` agrees on is one of the lists that survived the hard-coded-checkpoint pass -/
+theorem resolveConflict_ok (interval : Nat) (hard : Nat → Option Hdr) (s : St) (net : Net)
+    (cp : List (Peer × List Hdr)) (l : List Hdr)
+    (h : (resolveConflict interval hard s net cp).2 = .ok l) :
+    ∃ pc ∈ (hardPass interval hard s cp).2, pc.2 = l := by
+  unfold resolveConflict at h
+  simp only at h
+  by_cases h1 : (hardPass interval hard s cp).2.isEmpty = true
+  · simp only [h1, ↓reduceIte] at h; cases h
+  · simp only [h1, Bool.false_eq_true, ↓reduceIte] at h
+    cases hc : checkSanity interval (hardPass interval hard s cp).1.fstore (hardPass interval hard s cp).2 with
+    | none => rw [hc] at h; exact pickList_ok _ _ _ h
+    | some d =>
+      rw [hc] at h
+      simp only at h
+      split at h
+      · cases h
+      · obtain ⟨pc, hpc, e⟩ := rcConflict_ok _ _ _ _ _ _ _ h
+        exact ⟨pc, (List.mem_filter.mp hpc).1, e⟩
+
 /-- what the checkpointed loop maintains, relative to the state `s0` it started from -/
 structure CpOK (H : FHash → Hdr → Hdr) (s0 : St) (c : CpLoop) : Prop where
   inv : Inv H c.st
